@@ -248,6 +248,9 @@ func handleInsertValues(p *InsertPlan) error {
 				return fmt.Errorf("find table index error: %v", err)
 			}
 			p.result.Inter([]int{routeIdx})
+		default:
+			// the sharding value must be evaluated by the proxy to place the row
+			return fmt.Errorf("sharding value must be a literal")
 		}
 		p.rewriteStmts = append(p.rewriteStmts, p.stmt)
 		return nil
@@ -280,6 +283,10 @@ func handleInsertValues(p *InsertPlan) error {
 			if err != nil {
 				return fmt.Errorf("find table index error: %v", err)
 			}
+		default:
+			// a row whose sharding value is not evaluated by the proxy cannot be
+			// placed: reject the statement instead of dropping the row
+			return fmt.Errorf("sharding value must be a literal")
 		}
 	}
 
